@@ -59,6 +59,7 @@ type gcScenario struct {
 	Closers    int
 	Gate       *gcGate
 	Yield      int
+	NoMeta     bool // messages are published without any metadata (an empty, non-nil map)
 	SameUUID   bool // every message carries the same UUID (a requeued or re-published copy): they are different messages all the same
 	SharedDec  bool // all decorated subscriptions go through ONE decorator object (per depth) instead of one of their own
 }
@@ -105,6 +106,13 @@ func gcMetaSnapshot(m *message.Message) string {
 }
 
 func (x *gcRunner) short(id string) string { return strings.TrimPrefix(id, x.prefix) }
+
+func (x *gcRunner) metaOf(mid string) map[string]string {
+	if x.sc.NoMeta {
+		return map[string]string{}
+	}
+	return map[string]string{"k": mid, "empty": ""}
+}
 
 // mid is the harness' name of a message: taken from the UUID, or (scenarios in which all UUIDs are equal) from its metadata
 func (x *gcRunner) mid(m *message.Message) string {
@@ -156,8 +164,10 @@ func (x *gcRunner) publishCtx(pname, topic string, n int, batch bool, deadCtx bo
 			dcancel()
 			msg.SetContext(dctx)
 		}
-		msg.Metadata.Set("k", mid)
-		msg.Metadata.Set("empty", "")
+		if !x.sc.NoMeta {
+			msg.Metadata.Set("k", mid)
+			msg.Metadata.Set("empty", "")
+		}
 		x.mu.Lock()
 		x.orig[mid] = msg
 		x.snap[mid] = gcMetaSnapshot(msg)
@@ -169,7 +179,7 @@ func (x *gcRunner) publishCtx(pname, topic string, n int, batch bool, deadCtx bo
 		}
 		pc := fmt.Sprintf("%s.%d", pname, atomic.AddInt32(&x.pseq, 1))
 		x.noteStart(mid, topic)
-		x.emit("pubstart", "p", pc, "m", mid, "topic", topic, "payload", string(msg.Payload), "meta", map[string]string{"k": mid, "empty": ""}, "after", "")
+		x.emit("pubstart", "p", pc, "m", mid, "topic", topic, "payload", string(msg.Payload), "meta", x.metaOf(mid), "after", "")
 		var err error
 		p, v := Guarded(func() { err = x.g.Publish(topic, msg) })
 		if p {
@@ -193,7 +203,7 @@ func (x *gcRunner) publishCtx(pname, topic string, n int, batch bool, deadCtx bo
 			pcs = append(pcs, pc)
 			mid := batchMids[bi]
 			x.noteStart(mid, topic)
-			x.emit("pubstart", "p", pc, "m", mid, "topic", topic, "payload", string(msg.Payload), "meta", map[string]string{"k": mid, "empty": ""}, "after", prev)
+			x.emit("pubstart", "p", pc, "m", mid, "topic", topic, "payload", string(msg.Payload), "meta", x.metaOf(mid), "after", prev)
 			prev = pc
 		}
 		var err error
@@ -268,7 +278,22 @@ func (x *gcRunner) subscribe(s gcSub) {
 		}
 		x.mu.Unlock()
 	}
-	x.emit("subend", "s", s.Name, "ok", err == nil)
+	// a Subscribe call that comes back with a channel after Close has returned: Close waited for it, so the channel is closed
+	// already (looked at for bare subscriptions only: a decorator closes its own channel a moment after the inner one)
+	chclosed := "n/a"
+	if err == nil && s.Decorators == 0 {
+		select {
+		case <-x.closeReturned:
+			select {
+			case _, ok := <-ch:
+				chclosed = map[bool]string{true: "no", false: "yes"}[ok]
+			default:
+				chclosed = "no"
+			}
+		default:
+		}
+	}
+	x.emit("subend", "s", s.Name, "ok", err == nil, "chclosed", chclosed)
 	if err != nil {
 		return
 	}
